@@ -171,5 +171,6 @@ struct Info {
 // Every property TU defines these.
 extern const verif::Info verif_info;
 int verif_case(const uint8_t *data, size_t size, verif::Case &c);
+std::string verif_static_init_verdict();      // defined in the property TU by st_hook.h
 long verif_enumerate(int shard, int nshards, int tier, verif::EnumReport &r);  // tier 0 quick, 1 thorough
 void verif_corpus(std::vector<std::vector<uint8_t>> &out);  // optional seeds for the fuzzer
